@@ -16,7 +16,8 @@ RULE = ("multi: a generated listing plus one patch (ordinary instructions, a tem
         "label, references to module symbols) registered at N=1..8 locations (insert_at at distinct blocks and/or an "
         "AllBlocksScope): N distinct suffixed symbols, each copy's jump leads to its own copy's label. errors: unknown "
         "names raise UndefSymbolError unless allowed; defining a name that exists in the module raises "
-        "MultipleDefinitionsError. chunks: C12-style token programs cut at 1-3 points (after terminators, inside data "
+        "MultipleDefinitionsError, and so does defining the same global / temporary label twice (with and without the "
+        "caller's suffix, in one text - LLVM's own diagnostic accepted - or in two assemble() calls). chunks: C12-style token programs cut at 1-3 points (after terminators, inside data "
         "runs, between a label and its instruction) with no reference to a label of a later chunk; "
         "canonical(Result(chunks)) == canonical(Result(concatenation)), where the concatenation re-enters .text at each "
         "cut because every assemble() call starts in the text section. Non-trivial = (multi) N >= 2, (chunks) a cut "
